@@ -378,6 +378,17 @@ impl Sim {
                     _ => "badhandle".into(),
                 }
             }
+            ["dropmany", hs @ ..] => {
+                // several `MuxStream`s dropped back to back, before the connection task runs again
+                // (a `Vec` of streams going out of scope, a cancelled task that owned several)
+                for h in hs {
+                    if let Some(x) = self.handles.get_mut(num(h) as usize) {
+                        x.stream = None;
+                        x.parked = false;
+                    }
+                }
+                "unit".into()
+            }
             ["dgsend", fid, host, port, d] => {
                 let Some(mux) = self.mux.clone() else { return "badhandle".into() };
                 let dg = Datagram {
